@@ -689,6 +689,27 @@ theorem lingo_stmt (s : Stmt) (hf : FragS s = true) (n : Node) (h : EmbS s n) (i
     obtain ⟨p, q, rfl⟩ := h
     simp [lingo, Lscr.Name.asStr, bind, Except.bind, pure, Except.pure, mS]
     rfl
+  | put m v lv =>
+    obtain ⟨p, q, l, r, rfl, hl, hr⟩ := h
+    simp only [FragS, Bool.and_eq_true] at hf
+    have e1 := lingo_emb lv (fragTg_fragE lv 0 hf.1.2) l hl ind
+    have e2 := lingo_emb v hf.1.1 r hr ind
+    simp only [lingo, e1, e2, bind, Except.bind, Lscr.Name.asStr, Lscr.Name.str, pure, Except.pure, mS]
+    simp [List.append_assoc]
+  | delete t =>
+    obtain ⟨p, q, l, rfl, hl⟩ := h
+    simp only [FragS, Bool.and_eq_true] at hf
+    have e1 := lingo_emb t (fragTg_fragE t 0 hf.2) l hl ind
+    have hne : ¬ (S "delete" = S "minus") := by decide
+    simp only [lingo, e1, hne, if_false, bind, Except.bind, Lscr.Name.asStr, Lscr.Name.str, pure, Except.pure, mS]
+    simp [List.append_assoc, S]
+  | hilite t =>
+    obtain ⟨p, q, l, rfl, hl⟩ := h
+    simp only [FragS] at hf
+    have e1 := lingo_emb t (fragTg_fragE t 0 hf) l hl ind
+    have hne : ¬ (S "hilite" = S "minus") := by decide
+    simp only [lingo, e1, hne, if_false, bind, Except.bind, Lscr.Name.asStr, Lscr.Name.str, pure, Except.pure, mS]
+    simp [List.append_assoc, S]
   | _ => simp [FragS] at hf
 
 theorem lingo_stmts : ∀ (ss : List Stmt), FragSs ss = true → ∀ (ns : List Node), EmbSs ss ns → ∀ (ind : Nat),
